@@ -331,6 +331,8 @@ def cfg_lines(state_kwargs: dict, extra: dict) -> list[str]:
     lines.append('antes ' + ' '.join(p_int(x) for x in antes))
     lines.append('blinds ' + ' '.join(p_int(x) for x in blinds))
     lines.append('stacks ' + ' '.join(p_int(x) for x in stacks))
+    if extra.get('variant'):
+        lines.append('variant {} {} {}'.format(*extra['variant']))
     return lines
 
 
@@ -611,6 +613,8 @@ def kw_from_script(lines: list[str]):
             d['raw_blinds_or_straddles'] = tuple(int(x) for x in t[1:] if x != '')
         elif k == 'stacks':
             d['raw_starting_stacks'] = tuple(int(x) for x in t[1:] if x != '')
+        elif k == 'variant':
+            extra['variant'] = (t[1], int(t[2]), int(t[3]))
     d['streets'] = tuple(d['streets'])
     d['rake'] = make_rake(*rake_t)
     d['divmod'] = make_divmod(extra.get('divchunk', 1))
